@@ -27,7 +27,7 @@ REQUIRED_MONITORS = ["C04.peak_index==first-argmax-in-band", "C04.peak_frequency
 REQUIRED_REACH = ["spectrum.py:WaveSpectrum.peak_index", "spectrum.py:WaveSpectrum.peak_wavenumber"]
 REQUIRED_COUNTERS = {"C04.ties": 5, "C04.peak_outside_band": 5, "C04.scalar_layout_wavenumber": 1}
 TIMEOUT = {"quick": 600, "thorough": 3000}
-N = {"quick": (8, 30), "thorough": (16, 600)}
+N = {"quick": (8, 30), "thorough": (16, 250)}
 
 
 def plan(tier, seed):
